@@ -4,11 +4,11 @@
 package c02
 
 import (
-	"strconv"
 	"encoding/hex"
 	"fmt"
 	"io"
 	"math/rand"
+	"strconv"
 	"time"
 	"unicode/utf8"
 
